@@ -11,6 +11,7 @@
 package simrt
 
 import (
+	"sync"
 	"encoding/json"
 	"fmt"
 	"iter"
@@ -431,5 +432,40 @@ func ResetGlobals() int {
 	for _, f := range resetFns {
 		f()
 	}
+	for k := range pools {
+		delete(pools, k)
+	}
 	return len(resetFns)
+}
+
+// ---------------------------------------------------------------------------
+// sync.Pool behind the seam
+
+var pools = map[*sync.Pool][]any{}
+
+// PoolGet replaces p.Get() in instrumented code: the most recently put object, else p.New().
+// Any object put earlier is a legal answer of sync.Pool.Get; the real pool's choice depends
+// on which P the caller runs on and on the garbage collector, which a replay cannot repeat.
+//
+//go:norace
+func PoolGet(site string, p *sync.Pool) any {
+	if st := pools[p]; len(st) > 0 {
+		x := st[len(st)-1]
+		pools[p] = st[:len(st)-1]
+		return x
+	}
+	if p.New != nil {
+		return p.New()
+	}
+	return nil
+}
+
+// PoolPut replaces p.Put(x).
+//
+//go:norace
+func PoolPut(site string, p *sync.Pool, x any) {
+	if x == nil {
+		return
+	}
+	pools[p] = append(pools[p], x)
 }
